@@ -642,7 +642,8 @@ class RouterAddInner(Contract):
                    'Route.set_method / add_method as proved (add_method may refuse with RouteMethodError and then changes nothing)',
                    'a Route object is truthy')
     expected_labels = ('name.clash_refused_before_any_change', 'route.registered_rule_reuses_its_route', 'route.new_rule_enters_tree_and_index_together',
-                       'methods.bound_with_the_requested_mode', 'name.bound_to_the_serving_route', 'post.returns_the_serving_route')
+                       'methods.bound_with_the_requested_mode', 'name.bound_to_the_serving_route', 'post.returns_the_serving_route',
+                       'route.looked_up_by_pattern_and_filters')
 
     def pre(self, X):
         g = X.globals
@@ -668,6 +669,14 @@ class RouterAddInner(Contract):
             return c.new_route
 
         def match(X, args, kwargs):
+            # _match(rule=None, filters=None, *, route_pattern=None, get_hooks=False): "the same rule" means same pattern AND same
+            # filters - a lookup without the filters would fold a rule with other filters into this route
+            a = list(args[1:])
+            pat = kwargs.get('route_pattern', kwargs.get('rule', a[0] if a else None))
+            flt = kwargs.get('filters', a[1] if len(a) > 1 else None)
+            ok = (pat is c.new_route.fields['pattern'] and flt is c.new_route.fields['filters'] and len(a) <= 2
+                  and set(kwargs) <= {'route_pattern', 'rule', 'filters'} and not ('rule' in kwargs and 'route_pattern' in kwargs))
+            X.prove('route.looked_up_by_pattern_and_filters', z3.BoolVal(bool(ok)))
             c.events.append(('_match', args[1:]))
             return c.old_route if c.exists else NONE
 
@@ -790,7 +799,7 @@ class ToPattern(Contract):
 
 class RemoveHook(Contract):
     """RadiRouter.remove_hook: the hook is removed from the tree node of to_pattern(rule) in hooks-only mode and from the hook index
-    under the same pattern; routes are not touched by this function."""
+    under the same pattern (afterwards the index has no entry for it, whether or not it had one); routes are not touched."""
     props = ('C11',)
     file = 'ombott/router/radirouter.py'
     qualname = 'RadiRouter.remove_hook'
@@ -799,23 +808,51 @@ class RemoveHook(Contract):
     def pre(self, X):
         self.rule = X.fresh_str('rule')
         self.pattern = X.fresh_str('pattern')
+        self.present = X.fresh_bool('pattern_in_hook_index')
         self.ev = []
         c = self
+
+        def pop(X, args, kwargs):
+            # pop(pattern, default): removes the entry if there is one, never raises; pop(pattern): KeyError when absent
+            if len(args) < 3 and not kwargs and X.decide(z3.Not(c.present.t)):
+                X.raise_(KeyError, 'absent')
+            c.ev.append(('hooks.gone', args[1]))
+            return NONE
+        self.hooks = VObj('Hooks', {})
         self.stubs = {'Router.to_pattern': lambda X, a, k: (c.ev.append(('to_pattern', a[1:])), c.pattern)[1],
                       'Tree.remove': lambda X, a, k: (c.ev.append(('tree.remove', a[1:], dict(k))), NONE)[1],
-                      'Hooks.pop': lambda X, a, k: (c.ev.append(('hooks.pop', a[1:])), NONE)[1]}
-        self.me = VObj('Router', {'radidict': VObj('Tree', {}), 'hooks': VObj('Hooks', {}), 'routes': VObj('Routes', {}),
+                      'Hooks.pop': pop}
+        self.me = VObj('Router', {'radidict': VObj('Tree', {}), 'hooks': self.hooks, 'routes': VObj('Routes', {}),
                                   'named_routes': VObj('Names', {})})
         return {'self': self.me, 'rule': self.rule}
 
+    def contains_hook(self, X, container, item):
+        if container is self.hooks:
+            self.asked = item
+            return self.present.t
+        return None
+
+    def delitem_hook(self, X, obj, key):
+        if obj is self.hooks:
+            if X.decide(z3.Not(self.present.t)):
+                X.raise_(KeyError, 'absent')
+            self.ev.append(('hooks.gone', key))
+            return True
+        return None
+
     def post(self, X, ret):
         tr = [e for e in self.ev if e[0] == 'tree.remove']
-        hp = [e for e in self.ev if e[0] == 'hooks.pop']
+        hp = [e for e in self.ev if e[0] == 'hooks.gone']
         tp = [e for e in self.ev if e[0] == 'to_pattern']
-        ok = (len(tp) == 1 and tp[0][1][0] is self.rule and len(tr) == 1 and tr[0][1][0] is self.pattern and len(tr[0][1]) == 1
-              and set(tr[0][2]) == {'hooks_only'} and isinstance(tr[0][2]['hooks_only'], VBool) and z3.is_true(z3.simplify(tr[0][2]['hooks_only'].t))
-              and len(hp) == 1 and hp[0][1][0] is self.pattern)
-        X.prove('hook.removed_from_tree_and_index_under_one_pattern', z3.BoolVal(bool(ok)))
+        tree_ok = (len(tp) == 1 and tp[0][1][0] is self.rule and len(tr) == 1 and tr[0][1][0] is self.pattern and len(tr[0][1]) == 1
+                   and set(tr[0][2]) == {'hooks_only'} and isinstance(tr[0][2]['hooks_only'], VBool)
+                   and z3.is_true(z3.simplify(tr[0][2]['hooks_only'].t)))
+        if hp:
+            idx_ok = z3.BoolVal(len(hp) == 1 and hp[0][1] is self.pattern)
+        else:
+            # nothing removed from the index: only right if the (same) pattern was asked for and is not there
+            idx_ok = z3.And(z3.BoolVal(getattr(self, 'asked', None) is self.pattern), z3.Not(self.present.t))
+        X.prove('hook.removed_from_tree_and_index_under_one_pattern', z3.And(z3.BoolVal(bool(tree_ok)), idx_ok))
 
     def post_raise(self, X, exc):
         X.prove('raises.nothing', z3.BoolVal(False))
